@@ -196,9 +196,11 @@ def judge_one(wd, mod, events, idx, timeout=3600, heap="768m"):
             fh.write(out)
         raise TlcError("judge batch %s failed (rc=%s), output kept in %s:\n%s" % (idx, rc, keep, out[-3000:]))
     st = parse_stats(out)
-    fails = [(t[1], t[2]) for t in tuples(out, "FAIL")]
+    full = list(tuples(out, "FAIL"))
+    fails = [(t[1], t[2]) for t in full]
     shutil.rmtree(bdir, ignore_errors=True)
-    return {"fails": fails, "judged": done[0][1], "states": st["distinct"] if st else 0, "wall": wall}
+    return {"fails": fails, "fails_full": full, "judged": done[0][1], "states": st["distinct"] if st else 0,
+            "wall": wall}
 
 
 def judge_batches(spec_module, const_defs, batches, tag, invariants=("Done",), jobs=16, timeout=3600):
@@ -208,12 +210,13 @@ def judge_batches(spec_module, const_defs, batches, tag, invariants=("Done",), j
         t0 = time.time()
         with ThreadPoolExecutor(max_workers=jobs) as ex:
             results = list(ex.map(lambda i: judge_one(wd, mod, batches[i], i, timeout), range(len(batches))))
-        fails, judged, states = [], 0, 0
+        fails, full, judged, states = [], [], 0, 0
         for r in results:
             fails.extend(r["fails"])
+            full.extend(r["fails_full"])
             judged += r["judged"]
             states += r["states"]
-        return {"fails": fails, "judged": judged, "states": states, "wall": time.time() - t0}
+        return {"fails": fails, "fails_full": full, "judged": judged, "states": states, "wall": time.time() - t0}
     finally:
         shutil.rmtree(wd, ignore_errors=True)
 
